@@ -1,0 +1,44 @@
+//go:build verif
+
+// Contracts for the verifier in /verif (comment-only file; contributes no declarations).
+package quotaresource
+
+// NewSharedState() returns the in-memory state in this tree (context.go, //go:build !pro).
+//@ devirt SharedStateI => *memoryState
+//@ pure APIStreamI.GetID
+
+//@ ghost func msOf(q *quota) *lunarContext.memoryState[int64] = q.context.(*lunarContext.memoryState[int64])
+// what newQuota establishes for a transactional (cost 1, no spillover) quota; none of these fields is written afterwards
+//@ ghost func quotaOK(q *quota) bool = q != nil && !q.withSpillover && typeis(q.context, *lunarContext.memoryState[int64]) && msValid(msOf(q)) && q.window > 0 && q.window % 1000000000 == 0 && q.window == msOf(q).gWin[q.currentCountKey] && q.currentCountKey == sprintf("%s_%s", q.quotaKey, "currentCount")
+
+// the cost function of the transactional strategy: always 1
+//@ func newTransactionalFixedWindow.func1
+//@   prop C01
+//@   ensures[cost-one] result0 == 1 && result1 == nil
+//@ field quota.extractCountF
+//@   ensures result0 == 1 && result1 == nil
+
+//@ monitor quota.mutex
+//@   self q
+//@   protects allowedByReqID
+//@   invariant[memo] q.allowedByReqID != nil
+
+//@ func (*quota).Inc
+//@   prop C01
+//@   requires quotaOK(q)
+//@   ensures[already]  seq: old(in(APIStream.GetID(), q.allowedByReqID)) ==> result == alreadyIncreased
+//@   ensures[verdict]  seq: !old(in(APIStream.GetID(), q.allowedByReqID)) ==> (result == increased || result == blocked)
+//@   ensures[memo-increased] seq: result == increased ==> in(APIStream.GetID(), q.allowedByReqID) && q.allowedByReqID[APIStream.GetID()]
+//@   ensures[memo-blocked]   seq: result == blocked ==> !in(APIStream.GetID(), q.allowedByReqID) || !q.allowedByReqID[APIStream.GetID()]
+//@   ensures[counted]  seq: result == increased ==> cntOf(msOf(q), q.currentCountKey) == ite(windowRestarted, 0, old(cntOf(msOf(q), q.currentCountKey))) + 1 && cntOf(msOf(q), q.currentCountKey) <= q.maxCount
+//@   ensures[blocked-only-if-full] seq: result == blocked ==> ite(windowRestarted, 0, old(cntOf(msOf(q), q.currentCountKey))) + 1 > q.maxCount && cntOf(msOf(q), q.currentCountKey) == old(cntOf(msOf(q), q.currentCountKey))
+//@   ensures[other-counters-untouched] seq: forall(k, string, k != q.currentCountKey ==> cntOf(msOf(q), k) == old(cntOf(msOf(q), k)))
+
+//@ func (*quota).Allowed
+//@   prop C01
+//@   ensures[verdict] seq: result == (old(in(APIStream.GetID(), q.allowedByReqID)) && old(q.allowedByReqID[APIStream.GetID()]))
+//@   ensures[consumed] seq: !in(APIStream.GetID(), q.allowedByReqID)
+
+//@ func (*quota).Dec
+//@   prop C01
+//@   ensures[forgotten] seq: !in(APIStream.GetID(), q.allowedByReqID)
